@@ -883,8 +883,20 @@ func TestC14(t *testing.T) {
 		rounds = 150
 	}
 	g := &gen{r: newRng(1400), noBool: true, maxElem: 10}
-	for round := 0; round < rounds; round++ {
-		ty := g.ty(2 + g.r.Intn(2))
+	// the first rounds fork a view of every top-level kind (what a view object itself carries is
+	// inherited by its copies), the others random nested types
+	tops := []*Ty{
+		{Kind: "list", Elem: &Ty{Kind: "u", N: 8}, N: 64}, {Kind: "list", Elem: &Ty{Kind: "u", N: 1}, N: 200},
+		{Kind: "bitlist", N: 300}, {Kind: "vec", Elem: &Ty{Kind: "u", N: 4}, N: 20}, {Kind: "bitvec", N: 70},
+		{Kind: "list", Elem: &Ty{Kind: "root"}, N: 16}, {Kind: "union", None: true, Fields: []*Ty{{Kind: "list", Elem: &Ty{Kind: "u", N: 2}, N: 9}}},
+	}
+	for round := 0; round < rounds+len(tops); round++ {
+		var ty *Ty
+		if round < len(tops) {
+			ty = tops[round]
+		} else {
+			ty = g.ty(2 + g.r.Intn(2))
+		}
 		if !isComposite(ty) {
 			continue
 		}
@@ -894,6 +906,11 @@ func TestC14(t *testing.T) {
 			continue
 		}
 		anc.HashTreeRoot(tree.Hash) // the shared structure is hashed beforehand
+		// ... and has been used in every other read-only way (state that a view or its sub-views
+		// keep from such calls is inherited by the forks)
+		_, _ = serializeView(anc)
+		_ = iterObs(ty, anc, tree.Hash)
+		prewarm(ty, anc)
 		workers := 2 + g.r.Intn(15)
 		type result struct {
 			ops []hop
@@ -963,4 +980,34 @@ func TestC14(t *testing.T) {
 			histCase(out, fmt.Sprintf("w%d", workers), "sha", ty, v, "ctor", res[w].ops, res[w].obs)
 		}
 	}
+}
+
+// prewarm serializes and iterates every composite sub-view reachable by Get (two levels deep).
+func prewarm(t *Ty, v view.View) {
+	var rec func(t *Ty, v view.View, d int)
+	rec = func(t *Ty, v view.View, d int) {
+		_, _ = serializeView(v)
+		if d == 0 {
+			return
+		}
+		n := currentLen(v, t)
+		for i := uint64(0); i < n && i < 6; i++ {
+			var el view.View
+			var err error
+			switch x := v.(type) {
+			case *view.ComplexVectorView:
+				el, err = x.Get(i)
+			case *view.ComplexListView:
+				el, err = x.Get(i)
+			case *view.ContainerView:
+				el, err = x.Get(i)
+			default:
+				return
+			}
+			if et := elemTyOf(t, i); err == nil && et != nil && isComposite(et) {
+				rec(et, el, d-1)
+			}
+		}
+	}
+	rec(t, v, 2)
 }
